@@ -2,40 +2,67 @@
    Only statements, each closed by [exact] of a lemma from Store_proofs.v.
 
    Store.v, layer 2: a world = local stores of machines A and B + one remote store + the CAS
-   exists-memo of each process + fault lists consumed by remote and local calls; RemoteWrapper
+   exists-memo and stored-memo of each process + fault lists consumed by remote and local calls; RemoteWrapper
    Get = local, else remote and fill; Set = tee into both, error if either fails; Exists = local OR
-   remote; Cas.Write skipped when Exists.  [publish m blobs k r] = what a build does for one target:
+   remote; ExistsEverywhere = local AND remote; Cas.Write skipped when the digest is in the process'
+   stored-memo or ExistsEverywhere.  [publish m blobs k r] = what a build does for one target:
    write every blob through the CAS, then the result that references them. *)
 From Coq Require Import List Bool.
 From Grog Require Import Str Store Store_proofs.
 Import ListNotations.
 
-(* the unguarded claim (every published result and every blob it references is retrievable from the
-   remote afterwards, "even when a blob already existed in the local cache") is FALSE of the faithful
-   model: the blob is in A's local cache only, Cas.Write skips it, the result is uploaded *)
-Theorem C08_no_dangling_refuted :
-  exists w m blobs k r, ~ no_dangling_at wit_refs w m blobs k r.
-Proof. exact no_dangling_refuted. Qed.
-Print Assumptions C08_no_dangling_refuted.
-
-(* the witness as a trace: both calls return ok, the remote ends with the result and no blob, and
-   the guard of the partial theorem is false on it *)
-Theorem C08_no_dangling_refuted_trace :
-  map fst (run_trace wit_world (publish MA [(wit_d, wit_x)] wit_k wit_d)) = [ROk; ROk] /\
-  rem (snd (run_ops wit_world (publish MA [(wit_d, wit_x)] wit_k wit_d))) = [((PTarget, wit_k), wit_d)] /\
-  local_sub_remote wit_world MA = false.
-Proof. exact refuted_trace. Qed.
-Print Assumptions C08_no_dangling_refuted_trace.
-
-(* guarded: when every blob of the writing machine's local cache is mirrored in the remote (boolean
-   guard, evaluated by the check on any failing history), a publish in which every call returned ok
-   leaves the result and every referenced blob in the remote -- for every world, machine, blob
-   list, fault list and reference decoding *)
-Theorem C08_no_dangling_partial :
+(* every published result and every blob it references is retrievable from the remote afterwards, "even
+   when a blob already existed in the local cache": for every world (whatever both local caches and the
+   remote hold), machine, blob list, fault lists and reference decoding, a publish in which every call
+   returned ok leaves the result and every referenced blob in the remote.  The one premise is about the
+   writing process' own memo: every digest it remembers as stored is in the remote (boolean guard). *)
+Theorem C08_no_dangling :
   forall (refs : bytes -> list key) w m blobs k r,
-    local_sub_remote w m = true -> no_dangling_at refs w m blobs k r.
-Proof. exact no_dangling_guarded. Qed.
-Print Assumptions C08_no_dangling_partial.
+    stored_in_remote w m = true -> no_dangling_at refs w m blobs k r.
+Proof. exact no_dangling. Qed.
+Print Assumptions C08_no_dangling.
+
+(* the premise holds for a new process (empty memo) in any world ... *)
+Theorem C08_no_dangling_new_process :
+  forall (refs : bytes -> list key) w m blobs k r,
+    wstored w m Wrapped = [] -> no_dangling_at refs w m blobs k r.
+Proof. exact no_dangling_new_process. Qed.
+Print Assumptions C08_no_dangling_new_process.
+
+(* ... and is an invariant of every history of back-end / CAS / result ops and process restarts on both
+   machines under any faults, as long as nothing is deleted (grog deletes nothing during a build) *)
+Theorem C08_stored_memo_invariant :
+  forall ops w m,
+    forallb (fun o => negb (is_delete o)) ops = true ->
+    stored_in_remote w m = true -> stored_in_remote (snd (run_ops w ops)) m = true.
+Proof. exact stored_in_remote_invariant. Qed.
+Print Assumptions C08_stored_memo_invariant.
+
+Theorem C08_no_dangling_after_history :
+  forall (refs : bytes -> list key) w m ops blobs k r,
+    forallb (fun o => negb (is_delete o)) ops = true ->
+    no_dangling_at refs (snd (run_ops (reset_memo w m) ops)) m blobs k r.
+Proof. exact no_dangling_after_history. Qed.
+Print Assumptions C08_no_dangling_after_history.
+
+(* the premise cannot be dropped: a process whose memo names a digest that is no longer in the remote skips
+   the upload (the memo assumes, as the code's comment says, that the back end does not lose a digest during
+   the run) *)
+Theorem C08_stored_memo_guard_needed :
+  exists w m blobs k r, stored_in_remote w m = false /\ ~ no_dangling_at wit_refs w m blobs k r.
+Proof. exact stored_guard_needed. Qed.
+Print Assumptions C08_stored_memo_guard_needed.
+
+(* the history of finding C08-F1 (blob in A's local cache only, empty remote): both calls return ok and the
+   remote ends with the result AND the blob *)
+Theorem C08_local_only_blob_uploaded :
+  lookup (locA wit_world) PCas wit_d = Some wit_x /\ rem wit_world = [] /\
+  stored_in_remote wit_world MA = true /\
+  map fst (run_trace wit_world (publish MA [(wit_d, wit_x)] wit_k wit_d)) = [ROk; ROk] /\
+  rem (snd (run_ops wit_world (publish MA [(wit_d, wit_x)] wit_k wit_d)))
+  = [((PTarget, wit_k), wit_d); ((PCas, wit_d), wit_x)].
+Proof. exact repaired_trace. Qed.
+Print Assumptions C08_local_only_blob_uploaded.
 
 (* machine B, empty local cache, same namespace, no faults: reading each result and every blob it
    references is answered exactly by the remote, executes nothing (every answer is the remote's
@@ -69,19 +96,19 @@ Theorem C08_faults_degrade : forall w m p k,
 Proof. exact get_faults_degrade. Qed.
 Print Assumptions C08_faults_degrade.
 
-(* non-vacuity: a cold machine A publishes (guard true, all calls ok, remote complete), B restores
-   with two hits; and a fault example: first remote Get fails, second is "not found", third hits *)
-Theorem C08_guarded_nonvacuous :
-  let w0 := empty_world [] [] in
-  let out := run_ops w0 (publish MA [(wit_d, wit_x)] wit_k wit_d) in
-  local_sub_remote w0 MA = true /\ forallb is_ok (fst out) = true /\
+(* non-vacuity: machine A, the blob in its local cache only, publishes (guard true, all calls ok, remote
+   complete), B restores with two hits; and a fault example: first remote Get fails, second is "not found",
+   third hits *)
+Theorem C08_no_dangling_nonvacuous :
+  let out := run_ops wit_world (publish MA [(wit_d, wit_x)] wit_k wit_d) in
+  stored_in_remote wit_world MA = true /\ forallb is_ok (fst out) = true /\
   remote_complete wit_refs (snd out) [wit_k] /\ locB (snd out) = [] /\
   fst (run_ops (snd out) (get_ops (restore_items wit_refs (snd out) [wit_k]))) = [RHit wit_d; RHit wit_x].
-Proof. exact guarded_nonvacuous. Qed.
-Print Assumptions C08_guarded_nonvacuous.
+Proof. exact no_dangling_nonvacuous. Qed.
+Print Assumptions C08_no_dangling_nonvacuous.
 
 Theorem C08_degrade_nonvacuous :
-  let w := mkW [] [] [((PCas, wit_d), wit_x)] (fun _ _ => []) [FFail; FNotFound] [] in
+  let w := mkW [] [] [((PCas, wit_d), wit_x)] (fun _ _ => []) (fun _ _ => []) [FFail; FNotFound] [] in
   map fst (run_trace w [Do MB Wrapped (AGet PCas wit_d); Do MB Wrapped (AGet PCas wit_d); Do MB Wrapped (AGet PCas wit_d)])
   = [RErr; RMiss; RHit wit_x].
 Proof. exact degrade_example. Qed.
